@@ -39,8 +39,9 @@ type Case struct {
 	CodabarSE bool   `json:"codabar_start_end,omitempty"` // RETURN_CODABAR_START_END
 	Lengths   []int  `json:"allowed_lengths,omitempty"`   // ALLOWED_LENGTHS
 	GS1       bool   `json:"assume_gs1,omitempty"`
-	QRLevel   *int   `json:"qr_level,omitempty"` // transpose cases: 0..3 = L M Q H (default M)
-	QRMask    *int   `json:"qr_mask,omitempty"`  // transpose cases: forced mask pattern
+	QRLevel   *int   `json:"qr_level,omitempty"`   // transpose cases: 0..3 = L M Q H (default M)
+	QRMask    *int   `json:"qr_mask,omitempty"`    // transpose cases: forced mask pattern
+	QRVersion int    `json:"qr_version,omitempty"` // transpose cases: forced version (0 = automatic)
 }
 
 func (c Case) hints() map[gozxing.DecodeHintType]interface{} {
@@ -106,6 +107,12 @@ func check(raw json.RawMessage) error {
 		}
 		if c.QRMask != nil {
 			eh = map[gozxing.EncodeHintType]interface{}{gozxing.EncodeHintType_QR_MASK_PATTERN: *c.QRMask}
+		}
+		if c.QRVersion > 0 {
+			if eh == nil {
+				eh = map[gozxing.EncodeHintType]interface{}{}
+			}
+			eh[gozxing.EncodeHintType_QR_VERSION] = c.QRVersion
 		}
 		code, err := encoder.Encoder_encode(c.Content, level, eh)
 		if err != nil {
@@ -218,6 +225,20 @@ func check(raw json.RawMessage) error {
 	} else if c.Sym != "QR" && c.Sym != "DM" && !c.Mirror && c.Rot == 2 {
 		// (for a sideways read the property promises the content only)
 		return fmt.Errorf("1-D symbol turned upside down read without ORIENTATION metadata [%s]", desc)
+	}
+	if c.Positive == "rot180" || c.Positive == "rot90" {
+		// the same BinaryBitmap read a second time (by a fresh reader) must give the same answer:
+		// nothing a read leaves behind in the bitmap may change the next read
+		_, reader2, _, _ := render(c)
+		res2, err2 := reader2.Decode(bmp, hints)
+		if err2 != nil {
+			return fmt.Errorf("second read of the same BinaryBitmap failed (%v) after a successful first read [%s]", err2, desc)
+		}
+		o1 := res.GetResultMetadata()[gozxing.ResultMetadataType_ORIENTATION]
+		o2 := res2.GetResultMetadata()[gozxing.ResultMetadataType_ORIENTATION]
+		if res2.GetText() != res.GetText() || o1 != o2 {
+			return fmt.Errorf("second read of the same BinaryBitmap gives %q with ORIENTATION %v, the first read gave %q with ORIENTATION %v [%s]", res2.GetText(), o2, res.GetText(), o1, desc)
+		}
 	}
 	if c.Positive == "rot180" {
 		if o, _ := res.GetResultMetadata()[gozxing.ResultMetadataType_ORIENTATION].(int); o != 180 {
@@ -431,6 +452,24 @@ func TestCheck(t *testing.T) {
 					}
 				}
 			}
+		}
+		// every version 1..40 transposed (version information is read through the mirrored path for 7+)
+		{
+			idx := 0
+			for v := 1; v <= 40; v++ {
+				for _, lv := range []int{0, 2} {
+					idx++
+					if !c.Mine(idx) {
+						continue
+					}
+					l := lv
+					cs := Case{Sym: "QR", Positive: "transpose", Scale: 1, QRLevel: &l, QRVersion: v, Content: fmt.Sprintf("V%02d", v), Canonical: fmt.Sprintf("V%02d", v)}
+					raw, _ := json.Marshal(cs)
+					c.Note("positive_qr_transposed_all_versions", fmt.Sprintf("level=%d", lv), true, hx.Hash(raw), func() any { return cs })
+					c.Enum("positive_qr_transposed_all_versions", "pose", cs, nil)
+				}
+			}
+			c.SetExhaustive("positive_qr_transposed_all_versions", true)
 		}
 		c.Rapid("positive_qr_transposed", c.N(400, 4000), func(t *rapid.T) {
 			rng := hx.NewRng(rapid.Uint64().Draw(t, "content"))
